@@ -193,6 +193,29 @@ func genTemplateFacts(src string) (string, error) {
 		fmt.Fprintf(&b, "def %sOwnImports : List String := %s\n", name, leanStrList(imports))
 		fmt.Fprintf(&b, "/-- template functions the %s template calls -/\n", name)
 		fmt.Fprintf(&b, "def %sFuncs : List String := %s\n", name, leanStrList(funcs))
+		if name == "testify" {
+			// shared state the emitted code declares: fields of every struct type and package-level variables
+			var fields, vars []string
+			lines := strings.Split(text, "\n")
+			for i := 0; i < len(lines); i++ {
+				l := lines[i]
+				if strings.HasPrefix(l, "var ") {
+					vars = append(vars, strings.TrimSpace(l))
+				}
+				if strings.HasPrefix(l, "type ") && strings.HasSuffix(strings.TrimSpace(l), "struct {") {
+					for i++; i < len(lines) && !strings.HasPrefix(strings.TrimSpace(lines[i]), "}"); i++ {
+						if f := strings.TrimSpace(lines[i]); f != "" && !strings.HasPrefix(f, "//") {
+							fields = append(fields, f)
+						}
+					}
+				}
+			}
+			sort.Strings(fields)
+			b.WriteString("/-- fields of the struct types the testify template declares (all of them) -/\n")
+			fmt.Fprintf(&b, "def testifyStructFields : List String := %s\n", leanStrList(fields))
+			b.WriteString("/-- package-level variables the testify template declares -/\n")
+			fmt.Fprintf(&b, "def testifyPackageVars : List String := %s\n", leanStrList(vars))
+		}
 		if name == "matryer" {
 			// G9: lock schema per emitted method kind
 			kinds := [][2]string{{"call", "// ACTION calls ACTIONFunc."}, {"calls", "// ACTIONCalls gets all the calls"}, {"resetOne", "// ResetACTIONCalls reset all the calls"}, {"resetAll", "// ResetCalls reset all the calls"}}
@@ -209,24 +232,34 @@ func genTemplateFacts(src string) (string, error) {
 					}
 				}
 				ops := []string{}
+				deferred := []string{}
 				for _, m := range reLockOpText.FindAllString(text[start:end], -1) {
+					op := ""
 					switch {
 					case strings.Contains(m, ".Lock()"):
-						ops = append(ops, "lock")
+						op = "lock"
 					case strings.Contains(m, ".Unlock()"):
-						ops = append(ops, "unlock")
+						op = "unlock"
 					case strings.Contains(m, ".RLock()"):
-						ops = append(ops, "rlock")
+						op = "rlock"
 					case strings.Contains(m, ".RUnlock()"):
-						ops = append(ops, "runlock")
+						op = "runlock"
 					case strings.Contains(m, "append("):
-						ops = append(ops, "append")
+						op = "append"
 					case strings.HasSuffix(strings.TrimSpace(m), "nil"):
-						ops = append(ops, "clear")
+						op = "clear"
 					default:
-						ops = append(ops, "snapshot")
+						// any other mention of the call log is a read of it
+						op = "snapshot"
 					}
+					if strings.HasPrefix(m, "defer") {
+						// runs when the emitted function returns
+						deferred = append([]string{op}, deferred...)
+						continue
+					}
+					ops = append(ops, op)
 				}
+				ops = append(ops, deferred...)
 				fmt.Fprintf(&b, "/-- matryer `%s`: lock operations and accesses to the call log, in emitted order -/\n", k[0])
 				fmt.Fprintf(&b, "def matryerSchema_%s : List String := %s\n", k[0], leanStrList(ops))
 			}
@@ -237,4 +270,4 @@ func genTemplateFacts(src string) (string, error) {
 }
 
 // on the placeholder text: mock.lockACTION.Lock(), mock.calls.ACTION = append(mock.calls.ACTION, callInfo), calls = mock.calls.ACTION
-var reLockOpText = regexp.MustCompile(`mock\.lockACTION\.(?:Lock|Unlock|RLock|RUnlock)\(\)|mock\.calls\.ACTION\s*=\s*append\(mock\.calls\.ACTION[^)]*\)|mock\.calls\.ACTION\s*=\s*nil|=\s*mock\.calls\.ACTION`)
+var reLockOpText = regexp.MustCompile(`(?:defer\s+)?mock\.lockACTION\.(?:Lock|Unlock|RLock|RUnlock)\(\)|mock\.calls\.ACTION\s*=\s*append\(mock\.calls\.ACTION[^)]*\)|mock\.calls\.ACTION\s*=\s*nil|mock\.calls\.ACTION`)
